@@ -9,35 +9,101 @@ def _ob(oid, props, ok, info=None, kind="ast"):
 
 
 def c09_constants(task):
-    """the notional a paper copy is funded with equals Backtest's default initial capital (cross-file constant)"""
+    """cross-file constant: Backtest's default initial capital is the notional a shadow copy is funded with (StrategyBase.setup is proved,
+    in props.c04_tasks.setup_clauses, to fund its shadow copy with exactly 1000000); the default is read from the real signature"""
     prog = Program()
     out = dict(results=[], samples=[])
-    setup = prog.func("bt.core.StrategyBase.setup").node
-    paper_amount = None
-    for n in ast.walk(setup):
-        if isinstance(n, ast.Assign) and isinstance(n.targets[0], ast.Attribute) and n.targets[0].attr == "_paper_amount":
-            try:
-                paper_amount = ast.literal_eval(n.value)
-            except Exception:
-                paper_amount = None
-                out["samples"].append(dict(paper_amount_expression=ast.unparse(n.value)))
     init = prog.func("bt.backtest.Backtest.__init__").node
     names = [a.arg for a in init.args.args]
-    dflt = init.args.defaults[names.index("initial_capital") - (len(names) - len(init.args.defaults))]
-    ic = ast.literal_eval(dflt)
-    out["results"].append(_ob("C09/paper-notional-equals-default-initial-capital", ("C09",), paper_amount is not None and float(paper_amount) == float(ic), dict(paper_amount=paper_amount, initial_capital_default=ic)))
-    # setup wires the paper copy: deepcopy of self, made its own root and parent, paper flag off, same data and kwargs, funded by adjust
-    src = ast.unparse(setup)
-    want = ["paper = deepcopy(self)", "paper.parent = paper", "paper._set_root(paper)", "paper._paper_trade = False", "paper.setup(self._original_data, **kwargs)", "paper.adjust(self._paper_amount)", "self._paper = paper"]
-    pos = [src.find(w) for w in want]
-    ok = all(p >= 0 for p in pos) and pos == sorted(pos)
-    out["results"].append(_ob("C09/setup-builds-paper-copy-as-own-root-with-same-data", ("C09",), ok, dict(found_positions=pos)))
-    out["samples"].append(dict(paper_amount=paper_amount, initial_capital_default=ic))
-    # settings reach the shadow copies only through the deepcopy made in setup: Backtest installs them on its own copy of the
-    # strategy in __init__ (before run calls setup); Backtest.run's verified call trace shows no later change
-    isrc = ast.unparse(init)
-    pos = [isrc.find(w) for w in ("self.strategy = deepcopy(strategy)", "self.strategy.use_integer_positions(integer_positions)", "if commissions is not None:", "self.strategy.set_commissions(commissions)")]
-    out["results"].append(_ob("C09/settings-installed-on-the-copy-before-setup", ("C09", "C19", "C07"), all(p >= 0 for p in pos) and pos == sorted(pos) and "setup(" not in isrc, dict(found_positions=pos)))
+    ic = None
+    if "initial_capital" in names:
+        dflt = init.args.defaults[names.index("initial_capital") - (len(names) - len(init.args.defaults))]
+        try:
+            ic = ast.literal_eval(dflt)
+        except Exception:
+            ic = None
+    out["results"].append(_ob("C09/stand-alone-default-capital-equals-the-shadow-notional", ("C09",), ic is not None and float(ic) == 1000000.0, dict(initial_capital_default=ic, shadow_notional=1000000)))
+    out["samples"].append(dict(initial_capital_default=ic))
+    return out
+
+
+def backtest_init_task(task):
+    """Backtest.__init__ executed with the tolerant executor (data processing abstracted; copy.deepcopy modelled as a fresh object, A-DEEPCOPY):
+    the backtest keeps a deep copy of the template, installs the integer-position mode and (when given) the commission function on that
+    copy - before run() calls setup, so shadow copies inherit them - and neither calls nor writes the caller's template."""
+    import z3
+    from pyvc import dsl
+    from pyvc.dsl import And, Not, Implies
+    from pyvc.heap import Heap, RefV, FnV, Fn, map_same
+    from pyvc.state import State, Oblig
+    from pyvc.prover import prove, model_to_dict
+    from pyvc.tolerant import TolerantExecutor, Tainted
+    from pyvc.symexec import NONEV
+    from contracts.schema import core_schema
+    from contracts import registry
+
+    q = "bt.backtest.Backtest.__init__"
+    out = dict(results=[], samples=[], qualname=q)
+    prog = Program()
+    R = registry.build()
+    sch = core_schema()
+    fi = prog.func(q)
+    out["source_hash"] = fi.source_hash()
+    argn = [a.arg for a in fi.node.args.args][1:]
+    for variant in ("with-commissions", "without-commissions"):
+        ex = TolerantExecutor(prog, sch, dict(R["contracts"]), inline=R["inline"])
+        st = State(Heap(sch))
+        self = RefV(dsl.fresh_ref("self"), "Backtest")
+        tmpl = RefV(dsl.fresh_ref("template"), "StrategyBase")
+        st.assume(And(self.term != dsl.NONE, tmpl.term != dsl.NONE, self.term != tmpl.term))
+        intpos = dsl.fresh_bool("integer_positions")
+        comm = FnV(z3.Const(dsl.fresh_name("commissions"), Fn)) if variant == "with-commissions" else NONEV
+        vals = dict(strategy=tmpl, data=Tainted("data"), name=NONEV, initial_capital=dsl.Num.lift(1000000.0) if hasattr(dsl, "Num") else 1000000.0, commissions=comm, integer_positions=intpos,
+                    progress_bar=False, additional_data=NONEV)
+        E0 = st.heap.copy()
+        for k in ("integer_positions", "commission_fn", "root", "parent"):
+            st.heap.ensure(k)
+        E0 = st.heap.copy()
+        exits = ex.run_function(fi, st, self, [vals[a] for a in argn])
+        n_norm = 0
+        for (s, oc) in exits:
+            if oc.kind == "raise":
+                continue
+            n_norm += 1
+            F = s.heap
+            copies = [x for x in s.log if x[0] == "deepcopy"]
+            on_tmpl = [x for x in s.log if len(x) == 4 and x[0] != "deepcopy" and isinstance(x[1], RefV) and z3.is_true(z3.simplify(x[1].term == tmpl.term))]
+            obl = [("keeps-one-deep-copy-of-the-template", len(copies) == 1 and z3.is_true(z3.simplify(copies[0][1].term == tmpl.term)), ("C11", "C09", "C19")),
+                   ("template-is-never-called", len(on_tmpl) == 0, ("C11",))]
+            if len(copies) == 1:
+                P = copies[0][2][0]
+                calls = [x for x in s.log if len(x) == 4 and x[0] != "deepcopy" and isinstance(x[1], RefV) and z3.is_true(z3.simplify(x[1].term == P.term))]
+                names = [x[0].rsplit(".", 1)[1] for x in calls]
+                ip = [x for x in calls if x[0].endswith(".use_integer_positions")]
+                sc = [x for x in calls if x[0].endswith(".set_commissions")]
+                ipa = ip[0][2][0] if ip else None
+                obl += [
+                    ("the-copy-is-the-backtest's-strategy", F.get(self, "strategy").term == P.term, ("C11", "C09")),
+                    ("integer-mode-installed-on-the-copy", len(ip) == 1 and ((ipa is intpos) or (not isinstance(ipa, bool) and z3.is_true(z3.simplify(ipa == intpos)))), ("C09", "C19")),
+                    ("commissions-installed-on-the-copy-iff-given", (len(sc) == 1 and sc[0][2][0].term is comm.term) if variant == "with-commissions" else len(sc) == 0, ("C09", "C19", "C07")),
+                    ("setup-is-left-to-run", "setup" not in names, ("C09",)),
+                ]
+            x = z3.Const(dsl.fresh_name("xfr"), dsl.Ref)
+            for key in sorted(F.maps.keys()):
+                a, b = F.maps[key], E0.ensure(key)
+                if map_same(a, b) or key.startswith("dct#"):
+                    continue
+                obl.append(("template-is-never-written:%s" % key, a.select(tmpl.term) == b.select(tmpl.term), ("C11",)))
+            for cid, goal, props in obl:
+                o = Oblig("Backtest.__init__[%s]/%s" % (variant, cid), s.pc, goal, "post", props)
+                r = prove(o, timeout_ms=20000)
+                d = dict(id=o.id, kind="post", props=list(props), verdict=r.verdict, backend=r.backend + " (tolerant execution)", secs=round(r.secs, 4), func=q)
+                if r.verdict == "refuted":
+                    d["model"] = model_to_dict(r.model) if r.model is not None else None
+                out["results"].append(d)
+        if n_norm == 0:
+            out["results"].append(dict(id="Backtest.__init__[%s]/has-a-normal-exit" % variant, kind="post", props=["C11", "C09"], verdict="unknown", backend="tolerant", secs=0.0, func=q, reason="no normal exit explored"))
+        out["samples"].append(dict(variant=variant, normal_exits=n_norm, abstracted=len(ex.abstracted)))
     return out
 
 
@@ -55,12 +121,7 @@ def c11_static(task):
     prog = Program()
     out = dict(results=[], samples=[])
     P = ("C11",)
-    init = prog.func("bt.backtest.Backtest.__init__").node
-    src_init = ast.unparse(init)
-    # (a)
-    i_copy = src_init.find("self.strategy = deepcopy(strategy)")
-    later_uses = [m for m in ("strategy.use_integer_positions", "strategy.set_commissions", "strategy.setup", "strategy.adjust") if (" " + m) in src_init.replace("self.strategy", "SELF_STRAT")]
-    out["results"].append(_ob("C11/Backtest.__init__/template-deep-copied-and-never-touched", P, i_copy >= 0 and not later_uses, dict(template_touched_by=later_uses)))
+    # (a) 'the template is deep-copied and never touched' is decided semantically by backtest_init_task (tolerant execution with a deepcopy model)
     # (b) no store into parameters `data`, `additional_data`, `strategy`, `universe`
     INPLACE = {"fillna", "dropna", "sort_index", "sort_values", "drop", "rename", "update", "pop", "clear", "setdefault", "append", "extend", "insert", "remove", "__setitem__", "iloc", "loc", "at", "iat"}
     for q, params in (("bt.backtest.Backtest.__init__", ["strategy", "data", "additional_data"]), ("bt.backtest.Backtest._process_data", ["data", "additional_data"]),
